@@ -160,6 +160,7 @@ def judge(ctx, meta, impl, model):
 
 BASE_PRE = [("dir", b"outside"), ("dir", b"outside/dir"), ("dir", b"outside/tdir"), ("file", b"outside/secret.txt", b"secret\n"),
             ("file", b"outside/dir/keep.txt", b"keep\n"), ("file", b"outside/dir/evil.txt", b"not evil yet\n"),
+            ("dir", b"outside/dir/deep"), ("dir", b"outside/dir/deep/er"), ("file", b"outside/dir/deep/settings.txt", b"settings\n"),
             ("dir", b"dest"), ("dir", b"dest/sub"), ("file", b"dest/sub/in.txt", b"inside\n"), ("file", b"dest/file.txt", b"file\n")]
 # name -> (path under root, target relative form, target absolute form, points outside, dangling, is dir-like)
 LINKS = {
@@ -273,6 +274,11 @@ def fs_scenarios(ctx):
         yield scenario(one(b"ld_out\\keep.txt"), [b"ld_out"], [], dm, "fs.unlink-through-link", note="existing outside file behind an intermediate symlink")
         yield scenario(one(b"ld_out\\evil.txt") + one(b"ld_out\\fresh.txt"), [b"ld_out"], [], dm, "fs.unlink-through-link")
         yield scenario(one(b"sub\\ld_out2\\x.txt"), [b"sub/ld_out2"], [], dm, "fs.corpus")
+        # the link is NOT the last directory component: the rest of the path exists as real directories under its target
+        yield scenario(one(b"ld_out\\deep\\settings.txt") + one(b"ld_out\\deep\\new.txt"), [b"ld_out"], [], dm, "fs.link-not-last",
+                       note="symlinked directory followed by existing real directories")
+        yield scenario(one(b"ld_out\\deep\\er\\new2.txt"), [b"ld_out"], ["-n"], dm, "fs.link-not-last")
+        yield scenario(one(b"ld_out/deep/er/new3.txt") + one(b"LD_OUT\\DEEP\\NEW4.TXT"), [b"ld_out"], ["-L"], dm, "fs.link-not-last")
         yield scenario(one(b"lf_out"), [b"lf_out"], [], dm, "fs.corpus", note="live file link as final component is replaced")
         yield scenario(one(b"lf_out"), [b"lf_out"], ["-n"], dm, "fs.corpus")
         yield scenario(one(b"ld_dang\\x.txt"), [b"ld_dang"], [], dm, "fs.corpus")
